@@ -250,7 +250,7 @@ inline int evalHostile(Ctx &cx, char epc, const Hdr &h, int mode, uint8_t filler
   {
     allochook::track = false;
     r.violation("no-exception", E + ":" + headerSig(h, max, true), kase,
-                std::string("exception escaped the receive path after ") + std::to_string(fed) + " bytes (header " + vr::hex(hdr) + "): " + e.what() +
+                std::string("exception escaped the receive path (") + std::to_string(fed) + " bytes accepted before the throwing read; header " + vr::hex(hdr) + "): " + e.what() +
                   " [in production this unwinds the transport I/O loop]");
     ++v;
   }
@@ -456,7 +456,7 @@ inline int evalGate(Ctx &cx, char epc, const std::string &ops)
     r.violation("no-exception", E + ":gate", kase, std::string("exception: ") + e.what());
     ++v;
   }
-  if (cap().badText && epc == 's')
+  if (cap().badText)
   {
     r.violation("utf8-text-valid", E + ":" + cap().badText, kase, "text callback received invalid UTF-8");
     ++v;
